@@ -143,6 +143,8 @@ type End struct {
 	discard       bool
 	readErr       error        // error returned by a failed Read (default ErrRead)
 	failWriteSet  map[int]bool // one-shot failing write indices
+	lateFailSet   map[int]bool // one-shot indices of writes that are delivered and then reported failed
+	writeErr      error        // error returned by a failed Write (default ErrWrite)
 	// OnWriteEntry, if set (use SetOnWriteEntry), is called at the very start of Write, before
 	// any serialisation: parking here models a transport in which concurrent Write calls are
 	// processed in an order of its own choosing.
@@ -210,6 +212,36 @@ func (e *End) FailWritesAt(idx ...int) {
 		e.failWriteSet[i] = true
 	}
 	e.mu.Unlock()
+}
+
+// DeliverButFailWritesAt makes the writes with these 0-based indices deliver their envelope and
+// then report failure, each once: a transport whose Write gives up (context, timeout) while the
+// frame still reaches the peer - the shipped websocket and HTTP transports can do that.
+func (e *End) DeliverButFailWritesAt(idx ...int) {
+	e.mu.Lock()
+	if e.lateFailSet == nil {
+		e.lateFailSet = map[int]bool{}
+	}
+	for _, i := range idx {
+		e.lateFailSet[i] = true
+	}
+	e.mu.Unlock()
+}
+
+// SetWriteErr chooses the error a failed Write returns.
+func (e *End) SetWriteErr(err error) {
+	e.mu.Lock()
+	e.writeErr = err
+	e.mu.Unlock()
+}
+
+func (e *End) werr() error {
+	e.mu.Lock()
+	defer e.mu.Unlock()
+	if e.writeErr != nil {
+		return e.writeErr
+	}
+	return ErrWrite
 }
 
 func (e *End) SetOnWriteEntry(f func(rpc *Rpc)) {
@@ -296,7 +328,7 @@ func (e *End) Write(ctx context.Context, rpc *Rpc) error {
 	sem := e.l.sem[dir]
 	select {
 	case <-e.wfail:
-		return ErrWrite
+		return e.werr()
 	case <-e.l.killed:
 		return ErrKill
 	default:
@@ -316,7 +348,7 @@ func (e *End) Write(ctx context.Context, rpc *Rpc) error {
 		case <-ctx.Done():
 			return ctx.Err()
 		case <-e.wfail:
-			return ErrWrite
+			return e.werr()
 		case <-e.l.killed:
 			return ErrKill
 		}
@@ -330,10 +362,14 @@ func (e *End) Write(ctx context.Context, rpc *Rpc) error {
 		delete(e.failWriteSet, idx)
 	}
 	discard := e.discard
+	lateFail := e.lateFailSet[idx]
+	if lateFail {
+		delete(e.lateFailSet, idx)
+	}
 	e.mu.Unlock()
 	if fail {
 		<-sem
-		return ErrWrite
+		return e.werr()
 	}
 	if discard {
 		<-sem
@@ -362,6 +398,9 @@ func (e *End) Write(ctx context.Context, rpc *Rpc) error {
 			if cb := e.l.Tap.onDelivered(); cb != nil {
 				cb(n, rec)
 			}
+			if lateFail {
+				return e.werr()
+			}
 			return nil
 		default:
 		}
@@ -371,7 +410,7 @@ func (e *End) Write(ctx context.Context, rpc *Rpc) error {
 	case <-ctx.Done():
 		err = ctx.Err()
 	case <-e.wfail:
-		err = ErrWrite
+		err = e.werr()
 	case <-e.l.killed:
 		err = ErrKill
 	}
@@ -384,6 +423,9 @@ func (e *End) Write(ctx context.Context, rpc *Rpc) error {
 	<-sem
 	if cb := e.l.Tap.onDelivered(); cb != nil {
 		cb(n, rec)
+	}
+	if lateFail {
+		return e.werr()
 	}
 	return nil
 }
